@@ -221,7 +221,10 @@ class LazyList:
     def output(self, end="\n", ctx=None):
         from vyxal.elements import vy_print, vy_repr
 
-        ctx.stacks.append(self.generated)
+        # an item that is a function is called on the current stack: that
+        # is a copy of the items generated so far, never the list's own cache
+        shown = list(self.generated)
+        ctx.stacks.append(shown)
         vy_print("⟨ " if ctx.vyxal_lists else "[", "", ctx=ctx)
         # items that were already generated are shown exactly like the ones
         # generated below (a string inside a list is quoted)
@@ -235,6 +238,7 @@ class LazyList:
 
         try:
             lhs = next(self)
+            shown.append(lhs)
             if len(self.generated) > 1:
                 vy_print(" | " if ctx.vyxal_lists else ", ", "", ctx=ctx)
             while True:
@@ -243,6 +247,7 @@ class LazyList:
                 else:
                     vy_print(vy_repr(lhs, ctx), "", ctx=ctx)
                 lhs = next(self)
+                shown.append(lhs)
                 vy_print(" | " if ctx.vyxal_lists else ", ", "", ctx=ctx)
         except StopIteration:
             vy_print(" ⟩" if ctx.vyxal_lists else "]", end, ctx=ctx)
